@@ -57,9 +57,11 @@ SHAPES = {'quick': [(1, 1), (1, 2), (2, 1), (2, 2), (2, 3), (3, 2)],
 TABLE_LABELS = ['X', '.', '0', '1', '42', 'a b', 'ä', '€', ',', ';', '!', '"', "'",
                 'x\ty', '-', '!!', '=', '*', '<>', 'B', '\\', 'x\\n', '{}', 'None', 'True',
                 'lorem ipsum dolor sit amet ' * 4 + 'end']      # > 100 characters with blanks
-CXT_LABELS = TABLE_LABELS + ['|', '#', 'a|b', '#x', 'a#b', '||']
+CXT_LABELS = TABLE_LABELS + ['|', '#', 'a|b', '#x', 'a#b', '||',
+                             # separators that are not line breaks of a text file (only \n / \r are)
+                             'a\x0cb', 'a\u2028b', 'a\x85b', 'a\x1eb']
 CSV_LABELS = CXT_LABELS + ['\n', 'a\nb', '\r', 'a\r\nb', ' lead', 'trail ', ',"', '""', '"',
-                           'a,b', "it's", '\t']
+                           'a,b', "it's", '\t', 'a\n\nb', 'a\r\n \r\nb']
 LABELS = {'table': TABLE_LABELS, 'cxt': CXT_LABELS, 'csv': CSV_LABELS, 'python-literal': CSV_LABELS}
 
 
